@@ -274,3 +274,42 @@ def mixed_extents(rng, item, lo=1, hi=4, cap=9, max_points=300):
             r = max(rs, key=lambda x: ext[x])
             ext[r] -= 1
     return ext
+
+
+def gen_iterative_cascade(rng):
+    """Iterative / in-place update patterns: an EARLIER Einsum reads a tensor that a LATER Einsum of the same specification
+    writes (P = A*X ; X = B*P ; ...).  Compared as text only (the first read needs a user-supplied X)."""
+    r1, r2 = rng.sample(["M", "K", "N", "J", "I"], 2)
+    a, b = r1.lower(), r2.lower()
+    decl = {"A": [r1, r2], "B": [r2, r1], "P": [r1], "X": [r2], "V": [r2]}
+    exprs = ["P[%s] = A[%s, %s] * X[%s]" % (a, a, b, b), "X[%s] = B[%s, %s] * P[%s]" % (b, b, a, a)]
+    outs = ["P", "X"]
+    ranks = [[r1, r2], [r2, r1]]
+    if rng.random() < 0.5:
+        decl["Q"] = [r1]
+        exprs.append("Q[%s] = A[%s, %s] * X[%s] * V[%s]" % (a, a, b, b, b))
+        outs.append("Q")
+        ranks.append([r1, r2])
+    if rng.random() < 0.3:
+        exprs[0] = "P[%s] = A[%s, %s] * X[%s] * V[%s]" % (a, a, b, b, b)
+    m = {"rank-order": {}, "loop-order": {}, "partitioning": {}}
+    for o, rs in zip(outs, ranks):
+        if rng.random() < 0.6:
+            lo = list(rs)
+            rng.shuffle(lo)
+            if rng.random() < 0.4:
+                pr = rng.choice(lo)
+                m["partitioning"][o] = {pr: ["uniform_shape(%d)" % rng.choice([2, 3, 4])]}
+                i = lo.index(pr)
+                lo[i:i + 1] = [pr + "1", pr + "0"]
+            m["loop-order"][o] = lo
+    for t in ("A", "B"):
+        if rng.random() < 0.4:
+            p = list(decl[t])
+            rng.shuffle(p)
+            m["rank-order"][t] = p
+    if not m["partitioning"]:
+        del m["partitioning"]
+    per = [{"out": o, "kind": "plain", "ranks": rs} for o, rs in zip(outs, ranks)]
+    return {"decl": decl, "exprs": exprs, "mapping": m, "syms": {}, "per": per, "relations": [], "pool": [r1, r2], "iterative": True,
+            "yaml": specgen.yaml_of(decl, exprs, m)}
